@@ -411,6 +411,23 @@ def run_script(kind, name, op, pre):
                 if keys != [name]:
                     viol.append(('setconf-keys', 'wrong-option-named/two-lists-set-together/' + op,
                                  '%s and %s were set together (%s); then only %s was edited in place; the save wrote %r' % (name, other, op, name, setconfs)))
+            elif kind == 'int-elements':
+                # list options hold whatever the application puts there; elements are sent with str(): 0 is an element too
+                elems = [0, 7] if op == 'assign' else None
+                if op == 'assign':
+                    setattr(cfg, name, list(elems))
+                    want = ['0', '7']
+                else:
+                    getattr(cfg, name).append(0)
+                    want = list(INITIAL[name]) + ['0'] if TYPES[name][1] != 'comma' else INITIAL[name][0].split(',') + ['0']
+                cfg.save().addErrback(lambda f: None)
+                sim.pump()
+                setconfs = [x for x in sim.commands[base:] if x.startswith('SETCONF')]
+                vals = [v for x in setconfs for k, v in kvline.parse(x[len('SETCONF'):]) if k == name]
+                got = vals if TYPES[name][1] != 'comma' or len(vals) != 1 else vals[0].split(',')
+                log.append('%s: %s with the integer 0; save' % (name, op))
+                if got != want:
+                    viol.append(('setconf-values', 'falsy-element/%s' % op, '%s should carry %r, the SETCONF has %r (%r)' % (name, want, vals, setconfs)))
             elif kind == 'failed-op':
                 lst = getattr(cfg, name)
                 try:
@@ -491,6 +508,11 @@ def run_task(param, acc):
                 acc.execution(key=('script', name, op), outcome='script/' + ('/'.join(sorted(set(v[0] for v in r['viol']))) or 'ok'), nontrivial=True, steps=3)
                 for cl, ft, dt in r['viol']:
                     acc.violation('%s/%s' % (cl, ft), dt, dict(script='failed-op', name=name, op=op, pre=None), cost=4)
+            for op in ('assign', 'append'):
+                r = run_script('int-elements', name, op, None)
+                acc.execution(key=('script', name, 'int-elements', op), outcome='script/' + ('/'.join(sorted(set(v[0] for v in r['viol']))) or 'ok'), nontrivial=True, steps=3)
+                for cl, ft, dt in r['viol']:
+                    acc.violation('%s/%s' % (cl, ft), dt, dict(script='int-elements', name=name, op=op, pre=None), cost=4)
             for op in ('event', 'save'):
                 r = run_script('two-lists', name, op, None)
                 acc.execution(key=('script', name, 'two-lists', op), outcome='script/' + ('/'.join(sorted(set(v[0] for v in r['viol']))) or 'ok'), nontrivial=True, steps=4)
